@@ -417,5 +417,7 @@ ANCHORS = {
     '_next_value': ['^babylon::IdAllocator(<|$)'],
     '_object': ['^babylon::DepositBox(<|$)'],
     '_value': ['^babylon::internal::ThreadIdImpl(<|$)'],
+    'free_head': ['^babylon::IdAllocator(<|$)'],
+    'next_value': ['^babylon::IdAllocator(<|$)'],
     'version': ['^babylon::DepositBox(<|$)', '^babylon::VersionedValue(<|$)'],
 }
